@@ -16,6 +16,16 @@ theorem rawOf_eq_nil {ts : List Tok} (h : rawOf ts = []) : ts = [] := by
   | nil => rfl
   | cons t ts => cases t <;> simp [Tok.raw] at h
 
+theorem carry_whole {p : Bytes} {ts : List Tok} (hc : Carry p ts) (hr : rawOf ts = p) : p = [] ∧ ts = [] := by
+  rcases hc with h | ⟨t, rest, q, rfl, hq, hne⟩
+  · subst h; exact ⟨rfl, rawOf_eq_nil hr⟩
+  · rw [rawOf_cons, hq, List.append_assoc] at hr
+    have : q ++ rawOf rest = [] := by
+      have := List.append_cancel_left (as := p) (bs := q ++ rawOf rest) (cs := []) (by simpa using hr)
+      exact this
+    simp at this
+    exact absurd this.1 hne
+
 theorem slice_eq_take_drop (d : Bytes) (s e : Nat) : slice d s e = (d.drop s).take (e - s) := rfl
 
 theorem slice_split (d : Bytes) (s m e : Nat) (h1 : s ≤ m) (h2 : m ≤ e) :
@@ -31,8 +41,8 @@ theorem slice_split (d : Bytes) (s m e : Nat) (h1 : s ≤ m) (h2 : m ≤ e) :
 theorem slice_length (d : Bytes) (s e : Nat) (h : e ≤ d.length) : (slice d s e).length = e - s := by
   simp [slice]; omega
 
-theorem pvLoop_stop (fuel : Nat) (d : Bytes) (pp : PP) (v : Nat) (hf : 1 ≤ fuel) (hm : pp.mustIkvi = false) :
-    pvLoop fuel d pp [] v v = pp := by
+theorem pvLoop_stop (fuel : Nat) (d : Bytes) (pp : PP) (v : Nat) (last : Bool) (hf : 1 ≤ fuel) (hm : pp.mustIkvi = false) :
+    pvLoop fuel d pp [] v v last = pp := by
   cases fuel with
   | zero => omega
   | succ n => simp [pvLoop, hm]
@@ -57,18 +67,20 @@ theorem round_eq (pp : PP) (cut : Bool) (nx : Bytes) (dec : Bytes) :
   | mk a1 a2 a3 a4 a5 a6 a7 a8 a9 a10 a11 a12 mi a14 a15 a16 a17 a18 a19 a20 a21 a22 a23 =>
   cases cut <;> cases mi <;> by_cases hd : dec.length = 0 <;> simp [roundPP, roundEvs, emitUrl, PP.keyStr, hd]
 
-theorem pvLoop_round (fuel : Nat) (d : Bytes) (pp : PP) (xb : Bytes) (vs ve : Nat)
+theorem pvLoop_round (fuel : Nat) (d : Bytes) (pp : PP) (xb : Bytes) (vs ve : Nat) (last : Bool)
     (hc : vs ≠ ve ∨ pp.mustIkvi = true ∨ xb.length > 0)
     (hg1 : xb.length ≤ XBUF) (hg2 : vs ≤ ve) (hg3 : ve ≤ d.length)
     (xoff2 : Nat) (cut : Bool) (clen : Nat)
-    (he : escTail (xb ++ slice d vs (vs + min (ve - vs) (XBUF - xb.length))) = (xoff2, cut, clen)) :
-    pvLoop (fuel + 1) d pp xb vs ve =
+    (he : (if last = true ∧ vs + min (ve - vs) (XBUF - xb.length) = ve
+            then ((xb ++ slice d vs (vs + min (ve - vs) (XBUF - xb.length))).length, false, 0)
+            else escTail (xb ++ slice d vs (vs + min (ve - vs) (XBUF - xb.length)))) = (xoff2, cut, clen)) :
+    pvLoop (fuel + 1) d pp xb vs ve last =
       if cut then roundPP pp (some ((xb ++ slice d vs (vs + min (ve - vs) (XBUF - xb.length))).drop xoff2))
           (if xoff2 ≠ 0 then unescape ((xb ++ slice d vs (vs + min (ve - vs) (XBUF - xb.length))).take xoff2) else [])
       else pvLoop fuel d (roundPP pp none
           (if xoff2 ≠ 0 then unescape ((xb ++ slice d vs (vs + min (ve - vs) (XBUF - xb.length))).take xoff2) else []))
           (if clen ≠ 0 then (xb ++ slice d vs (vs + min (ve - vs) (XBUF - xb.length))).drop xoff2 else [])
-             (vs + min (ve - vs) (XBUF - xb.length)) ve := by
+             (vs + min (ve - vs) (XBUF - xb.length)) ve last := by
   have hg : ¬ (xb.length > XBUF ∨ ve < vs ∨ ve > d.length) := by omega
   rw [pvLoop]
   simp only [hc, not_true_eq_false, if_false, hg, he]
@@ -121,19 +133,20 @@ theorem pieces_round (pp : PP) (dec : Bytes) :
       | cons a l => exact absurd (Or.inr (by simp)) he
     simp [Pieces, this]
 
-theorem pvLoop_spec : ∀ (fuel : Nat) (d : Bytes) (pp : PP) (xb : Bytes) (vs ve : Nat) (ts : List Tok) (W : Bytes),
+theorem pvLoop_spec : ∀ (fuel : Nat) (d : Bytes) (pp : PP) (xb : Bytes) (vs ve : Nat) (ts : List Tok) (W : Bytes)
+    (last : Bool),
     AllOk ts → rawOf ts = xb ++ slice d vs ve ++ W → xb.length ≤ 2 → vs ≤ ve → ve ≤ d.length →
-    (ve - vs) + 2 ≤ fuel →
+    (ve - vs) + 2 ≤ fuel → (last = true → W = []) →
     ∃ ts1 ts2 p es, ts = ts1 ++ ts2 ∧ xb ++ slice d vs ve = rawOf ts1 ++ p ∧ Carry p ts2 ∧ rawOf ts2 = p ++ W ∧
       Pieces (urlMeta pp.keyStr) pp.valueOffset (decOf ts1) es ∧ (pp.mustIkvi = true → es ≠ []) ∧
-      pvLoop fuel d pp xb vs ve =
+      pvLoop fuel d pp xb vs ve last =
         { pp with xbuf := if p = [] then pp.xbuf else p, valueOffset := pp.valueOffset + (decOf ts1).length,
                   mustIkvi := false, evs := pp.evs ++ es } := by
   intro fuel
   induction fuel with
-  | zero => intro d pp xb vs ve ts W _ _ _ _ _ hf; omega
+  | zero => intro d pp xb vs ve ts W last _ _ _ _ _ hf; omega
   | succ n ih =>
-    intro d pp xb vs ve ts W hok hraw hxb hle hve hfuel
+    intro d pp xb vs ve ts W last hok hraw hxb hle hve hfuel hlast
     have hX := xbuf_ge
     by_cases hc : vs ≠ ve ∨ pp.mustIkvi = true ∨ xb.length > 0
     · -- one round
@@ -150,9 +163,20 @@ theorem pvLoop_spec : ∀ (fuel : Nat) (d : Bytes) (pp : PP) (xb : Bytes) (vs ve
       have hforms := carry_forms e3 hok2
       have hlen1 : (xb ++ slice d vs (vs + delta)).length = xb.length + delta := by
         rw [List.length_append, slice_length d vs (vs + delta) (by omega)]; omega
-      have hesc := escTail_tok t1 p1 hok1 hforms
-      rw [← e2] at hesc
-      have hround := pvLoop_round n d pp xb vs ve hc (by omega) hle hve (rawOf t1).length
+      have hesc0 := escTail_tok t1 p1 hok1 hforms
+      rw [← e2] at hesc0
+      have hesc : (if last = true ∧ vs + delta = ve
+            then ((xb ++ slice d vs (vs + delta)).length, false, 0)
+            else escTail (xb ++ slice d vs (vs + delta))) =
+          ((rawOf t1).length, (decide (p1 ≠ []) && ((xb ++ slice d vs (vs + delta)).length != XBUF)),
+            if p1 ≠ [] ∧ (xb ++ slice d vs (vs + delta)).length = XBUF then p1.length else 0) := by
+        by_cases hl : last = true ∧ vs + delta = ve
+        · have hnil : slice d (vs + delta) ve = [] := by rw [hl.2]; simp [slice]
+          have hp1 : p1 = [] := (carry_whole e3 (by rw [e4, hnil, hlast hl.1]; simp)).1
+          rw [if_pos hl, e2, hp1]
+          simp
+        · rw [if_neg hl]; exact hesc0
+      have hround := pvLoop_round n d pp xb vs ve last hc (by omega) hle hve (rawOf t1).length
         (decide (p1 ≠ []) && ((xb ++ slice d vs (vs + delta)).length != XBUF))
         (if p1 ≠ [] ∧ (xb ++ slice d vs (vs + delta)).length = XBUF then p1.length else 0)
         (by rw [hdelta]; exact hesc)
@@ -212,7 +236,7 @@ theorem pvLoop_spec : ∀ (fuel : Nat) (d : Bytes) (pp : PP) (xb : Bytes) (vs ve
               omega
           subst hp1
           have hvd : vs + delta = ve := by omega
-          rw [hvd, pvLoop_stop n d _ _ (by omega) (by simp [roundPP])] at hround
+          rw [hvd, pvLoop_stop n d _ _ last (by omega) (by simp [roundPP])] at hround
           subst hvv
           have hnil : slice d (vs + delta) vs = [] := by simp [slice]
           refine ⟨t1, t2, [], roundEvs pp (decOf t1), rfl, ?_, e3, ?_, ?_, ?_, ?_⟩
@@ -224,8 +248,8 @@ theorem pvLoop_spec : ∀ (fuel : Nat) (d : Bytes) (pp : PP) (xb : Bytes) (vs ve
         · -- more input: induction hypothesis on the rest
           have hd1 : 1 ≤ delta := by omega
           obtain ⟨t1', t2', p', es', f1, f2, f3, f4, f5, f6, f7⟩ :=
-            ih d (roundPP pp none (decOf t1)) p1 (vs + delta) ve t2 W hok2 (by rw [e4]; simp) hp1len
-              (by omega) hve (by omega)
+            ih d (roundPP pp none (decOf t1)) p1 (vs + delta) ve t2 W last hok2 (by rw [e4]; simp) hp1len
+              (by omega) hve (by omega) hlast
           subst f1
           refine ⟨t1 ++ t1', t2', p', roundEvs pp (decOf t1) ++ es', by simp, ?_, f3, f4, ?_, ?_, ?_⟩
           · rw [hsplit, ← List.append_assoc, e2, List.append_assoc, f2]; simp
@@ -313,54 +337,24 @@ theorem slice_one (d : Bytes) (x : Nat) (c : UInt8) (h : d[x]? = some c) : slice
   rfl
 
 /-- `process_value` on well-formed input -/
-theorem processValue_spec (d : Bytes) (pp : PP) (s e : Nat) (le : Option Nat) (ts : List Tok) (W : Bytes)
+theorem processValue_spec (d : Bytes) (pp : PP) (s e : Nat) (le : Option Nat) (ts : List Tok) (W : Bytes) (last : Bool)
     (hok : AllOk ts) (hraw : rawOf ts = pp.xbuf ++ slice d s e ++ W) (hxb : pp.xbuf.length ≤ 2)
-    (hse : s ≤ e) (hed : e ≤ d.length)
-    (hle : ∀ x, le = some x → s ≤ x ∧ x < e ∧ d[x]? = some cPct) :
+    (hse : s ≤ e) (hed : e ≤ d.length) (hlast : last = true → W = []) :
     ∃ ts1 ts2 p es, ts = ts1 ++ ts2 ∧ pp.xbuf ++ slice d s e = rawOf ts1 ++ p ∧ Carry p ts2 ∧ rawOf ts2 = p ++ W ∧
       Pieces (urlMeta pp.keyStr) pp.valueOffset (decOf ts1) es ∧ (pp.mustIkvi = true → es ≠ []) ∧
-      processValue d pp (some s) (some e) le =
+      processValue d pp (some s) (some e) le last =
         { pp with xbuf := p, valueOffset := pp.valueOffset + (decOf ts1).length,
                   mustIkvi := false, evs := pp.evs ++ es } := by
   have hg1 : ¬ pp.xbuf.length > Mhd.Gen.PP.ppXbufLen := by rw [ppXbufLen_eq]; omega
   have hg2 : ¬ (e < s ∨ e > d.length) := by omega
-  by_cases hsp : ∃ x, le = some x ∧ e - x < 2
-  · -- the chunk ends with '%': it is put aside first
-    obtain ⟨x, hx, hlt⟩ := hsp
-    obtain ⟨h1, h2, h3⟩ := hle x hx
-    have hex : e = x + 1 := by omega
-    have hsl : slice d s e = slice d s x ++ [cPct] := by
-      rw [slice_split d s x e h1 (by omega), hex, slice_one d x cPct h3]
-    have hraw' : rawOf ts = pp.xbuf ++ slice d s x ++ (cPct :: W) := by
-      rw [hraw, hsl]; simp
-    obtain ⟨ts1, ts2, p, es, f1, f2, f3, f4, f5, f6, f7⟩ :=
-      pvLoop_spec (x - s + 3) d { pp with xbuf := slice d x e } pp.xbuf s x ts (cPct :: W) hok hraw' hxb h1 (by omega) (by omega)
-    subst f1
-    have hp : p = [] := carry_then_pct f3 hok.append_right f4
-    subst hp
-    refine ⟨ts1, ts2, [cPct], es, rfl, ?_, carry_pct hok.append_right (by simpa using f4), by simpa using f4, f5, f6, ?_⟩
-    · rw [hsl, ← List.append_assoc, f2]; simp
-    · simp only [processValue, hg1, if_false, hg2, hx]
-      have : ¬ x > e := by omega
-      simp only [this, if_false, ppXbufLen_eq, hlt, if_true]
-      rw [f7]
-      simp [hex, slice_one d x cPct h3]
-  · -- ordinary call
-    obtain ⟨ts1, ts2, p, es, f1, f2, f3, f4, f5, f6, f7⟩ :=
-      pvLoop_spec (e - s + 3) d { pp with xbuf := [] } pp.xbuf s e ts W hok hraw hxb hse hed (by omega)
-    refine ⟨ts1, ts2, p, es, f1, f2, f3, f4, f5, f6, ?_⟩
-    have hfin : pvLoop (e - s + 3) d { pp with xbuf := [] } pp.xbuf s e =
-        { pp with xbuf := p, valueOffset := pp.valueOffset + (decOf ts1).length, mustIkvi := false, evs := pp.evs ++ es } := by
-      rw [f7]
-      by_cases hp : p = [] <;> simp [hp]
-    simp only [processValue, hg1, if_false, hg2]
-    cases hl : le with
-    | none => simpa using hfin
-    | some x =>
-      obtain ⟨h1, h2, h3⟩ := hle x hl
-      have h4 : ¬ e - x < 2 := fun h => hsp ⟨x, hl, h⟩
-      have : ¬ x > e := by omega
-      simp only [this, if_false, ppXbufLen_eq, h4]
-      simpa using hfin
+  obtain ⟨ts1, ts2, p, es, f1, f2, f3, f4, f5, f6, f7⟩ :=
+    pvLoop_spec (e - s + 3) d { pp with xbuf := [] } pp.xbuf s e ts W last hok hraw hxb hse hed (by omega) hlast
+  refine ⟨ts1, ts2, p, es, f1, f2, f3, f4, f5, f6, ?_⟩
+  have hfin : pvLoop (e - s + 3) d { pp with xbuf := [] } pp.xbuf s e last =
+      { pp with xbuf := p, valueOffset := pp.valueOffset + (decOf ts1).length, mustIkvi := false, evs := pp.evs ++ es } := by
+    rw [f7]
+    by_cases hp : p = [] <;> simp [hp]
+  simp only [processValue, hg1, if_false, hg2]
+  exact hfin
 
 end Mhd.PP
